@@ -11,7 +11,7 @@ From Coq Require Import Reals ZArith List Lra Lia.
 From Interval Require Import Xreal.
 From Flocq Require Import Core.
 From RD Require Import Base.Expr Base.Run Model.Sampler Model.Continuous Model.Discrete
-  Proofs.LawsInvCdf Proofs.LoopBounds Proofs.PmfBinomial Proofs.PmfHyper Proofs.PmfZeta Proofs.SupportDiscrete Proofs.PmfModelEvents.
+  Proofs.LawsInvCdf Proofs.LoopBounds Proofs.PmfBinomial Proofs.PmfHyper Proofs.PmfZeta Proofs.PmfZipf Proofs.SupportDiscrete Proofs.PmfModelEvents.
 Import ListNotations.
 Open Scope R_scope.
 
@@ -81,6 +81,19 @@ Theorem C02_model_zeta_event : forall fuel t s ws, 1 < dyR s -> Forall word ws -
          nopanic (zeta_loop fuel t (Bin Sub (dyx s) one) (epow (num 2) (Bin Sub (dyx s) one)) ws).
 Proof. exact zeta_loop_event. Qed.
 
+(* Zipf on the model, integer n >= 1 and every s >= 0: every returned x was proposed as floor(H^-1(p t) + 1) for the [0,1) draw p
+   (t = total mass of the hat, H^-1 = zipf_inv: C02_zipf_inv_cdf_low, _ne1, _eq1) and accepted with its second draw y < ratio(x, H^-1(p t)),
+   the probability for which C02_zipf_accept_identity / C02_zipf_accept_mass give the mass x^-s *)
+Theorem C02_zipf_inv_def : forall s pt,
+  zipf_inv s pt = if dy_eqb s (1%Z, 0%Z) then zipf_inv_eq1 pt else zipf_inv_ne1 (dyR s) pt.
+Proof. intros. reflexivity. Qed.
+Theorem C02_model_zipf_event : forall t n s N, dyR n = IZR N -> (1 <= N)%Z -> 0 <= dyR s -> forall ws, Forall word ws ->
+  let T := if dy_eqb s (1%Z, 0%Z) then zipf_t_eq1 (IZR N) else zipf_t_ne1 (IZR N) (dyR s) in
+  allout (fun r => exists P Y, 0 <= P < 1 /\ 0 <= Y < 1 /\ fst r = Zfloor (zipf_inv s (P * T) + 1) /\ (1 <= fst r <= N)%Z /\
+                   Y < zipf_ratio (dyR s) (IZR (fst r)) (zipf_inv s (P * T)))
+         nopanic (zipf t n s ws).
+Proof. exact zipf_event. Qed.
+
 (* non-vacuity: a concrete BINV state satisfies the hypotheses (n = 2, p = 1/2, start of the walk) *)
 Example C02_ex_model_binv : forall ws,
   allout (fun q => snd q = ws /\ match fst q with Some y => binv_cell 2 (1 / 2) (/ 2) 0 y | None => False end)
@@ -113,4 +126,6 @@ Print Assumptions C02_model_hin_event.
 Print Assumptions C02_model_geo_trivial_event.
 Print Assumptions C02_model_geo_d_event.
 Print Assumptions C02_model_zeta_event.
+Print Assumptions C02_zipf_inv_def.
+Print Assumptions C02_model_zipf_event.
 Print Assumptions C02_ex_model_binv.
